@@ -174,6 +174,12 @@ fn oracle(s: &ProgScene<X>, t: &Trace) -> Vec<Violation> {
 }
 
 fn make_case(script: (&'static str, Vec<Op>), subs: &[Vec<L>], stopper: bool, fail: Fail, mailbox: Mailbox) -> Case {
+    make_case_slow(script, subs, stopper, fail, mailbox, None)
+}
+
+/// `slow_stop`: a handler timeout of 2 ticks (with this fail_on_timeout) is configured and
+/// stopped() takes 5 ticks - the timeout is about handlers, stopped() still runs to its end
+fn make_case_slow(script: (&'static str, Vec<Op>), subs: &[Vec<L>], stopper: bool, fail: Fail, mailbox: Mailbox, slow_stop: Option<bool>) -> Case {
     let mut clients = vec![ClientSpec { init: vec![HInit::Own], ops: script.1.clone() }];
     for (c, p) in subs.iter().enumerate() {
         let ops: Vec<Op> = p.iter().enumerate().map(|(i, l)| to_op(*l, msg_id(c + 1, i))).collect();
@@ -193,8 +199,13 @@ fn make_case(script: (&'static str, Vec<Op>), subs: &[Vec<L>], stopper: bool, fa
             clients.push(ClientSpec { init: vec![HInit::Addr], ops: vec![Op::Restart(H::Addr(0))] });
         }
     }
+    let mut spawn = SpawnCfg::plain(mailbox);
+    if let Some(f) = slow_stop {
+        spawn.timeout = Some((2, f));
+        role.stopped_sleep = 5;
+    }
     let desc = format!(
-        "owning{} mailbox={} script={} stopper={} fail={:?} subs={}",
+        "owning{} slow_stop={slow_stop:?} mailbox={} script={} stopper={} fail={:?} subs={}",
         crate::progscene::variant_tag(),
         mailbox.name(),
         script.0,
@@ -206,7 +217,7 @@ fn make_case(script: (&'static str, Vec<Op>), subs: &[Vec<L>], stopper: bool, fa
         desc,
         exec: ExecCfg::default(),
         bound: None,
-        scene: Box::new(ProgScene { variant: crate::progscene::current_variant(), attach: crate::progscene::attach_for(mailbox), spawn: SpawnCfg::plain(mailbox), roles: vec![role], clients, extra: X { owner_script: script.0 }, oracle }),
+        scene: Box::new(ProgScene { variant: crate::progscene::current_variant(), attach: crate::progscene::attach_for(mailbox), spawn, roles: vec![role], clients, extra: X { owner_script: script.0 }, oracle }),
     }
 }
 
@@ -246,6 +257,21 @@ fn plain_cases(tier: Tier) -> Vec<Case> {
                         }
                     }
                 }
+            }
+        }
+    }
+    // a handler timeout is configured and stopped() takes longer than it
+    for script in owner_scripts() {
+        if !matches!(script.0, "join" | "consume" | "use-then-consume" | "late-join" | "consume_sync") {
+            continue;
+        }
+        for f in [false, true] {
+            for stopper in [false, true] {
+                if !(stopper || self_terminating(script.0)) {
+                    continue;
+                }
+                v.push(make_case_slow(script.clone(), &[vec![L::SendAddr]], stopper, Fail::No, Mailbox::U, Some(f)));
+                v.push(make_case_slow(script.clone(), &[vec![L::CallAddr]], stopper, Fail::No, Mailbox::B(1), Some(f)));
             }
         }
     }
